@@ -145,8 +145,11 @@ class JsonDocument(HierDictDocument):
         return value
 
     def _ret_bool(self, cls, value):
-        if value is None or value in (True, False):
-            return value
+        if value is None:
+            return None
+        # 0 and 1 compare equal to False and True: hand over a real bool.
+        if value in (True, False) and not isinstance(value, float):
+            return bool(value)
         raise ValidationError(value)
 
     def validate(self, key, cls, val):
